@@ -313,7 +313,7 @@ def check_element(run, name, el, dim, domain, D, complete, nodal, bubble, rng, l
                         unit=unit + ":argument-form", config=(label, "argument-form", fname))
 
     # FD second opinion at random points
-    h = 1e-6 * half
+    h = 1e-5 * half  # (truncation ~1e-9 for degree 6, round-off of the order-6 members on intervals away from zero ten times below the 1e-6 step: 0.08 instead of 0.78 of the bound)
     worst = 0.0
     worst_h = 0.0
     for r in P[:12]:
